@@ -48,6 +48,10 @@ fn evidence_dir() -> String {
 }
 
 fn seam_gate(spec: &registry::PropSpec) {
+    if let Err(e) = env::edge_scalars_selfcheck() {
+        eprintln!("harness error: {}", e);
+        std::process::exit(2);
+    }
     let (c, e) = kernel::seams::self_test();
     if (!c && spec.needs_clock) || (!e && spec.needs_entropy) {
         eprintln!("harness error: seam inactive (clock={}, entropy={}) but required by this check", c, e);
